@@ -104,10 +104,10 @@ CHECKS["C04"] = dict(
                "routines, the lazy view and the evaluated array are read at every index and compared (shape and element) with NumPy-definition "
                "models (pad/resize/expand: their documented definitions); distinct element values make a copied-from-the-wrong-place element visible.",
     units=[
-        U("select", "harness/c04a_select.cpp", weight=4),
+        U("select", "harness/c04a_select.cpp", weight=4, shards=8),      # 6.6 million thorough cases: 8 shards keep every shard's distinct-key table below its cap
         U("stack", "harness/c04a_select.cpp", flags=["-DC04_STACK"]),
         U("generate", "harness/c04b_generate.cpp", weight=2),
-        U("select_san", "harness/c04a_select.cpp", san=True, family="select", shadow=True, weight=6, tiers=["thorough"]),
+        U("select_san", "harness/c04a_select.cpp", san=True, family="select", shadow=True, weight=6, shards=12, tiers=["thorough"]),   # ASan/UBSan over the whole thorough space: 12 shards to stay inside the deadline
         U("generate_san", "harness/c04b_generate.cpp", san=True, family="generate", shadow=True, weight=3, tiers=["thorough"]),
     ],
     rule="case = (routine, source shape, arguments); non-trivial = the result differs from the source in shape or element order (generators, joins "
